@@ -198,6 +198,21 @@ add("C20",
     "executable two-stage defect model only. Exploration only.",
     "trusts vlib/refcal.py; whole seconds; designator values the mode admits")
 
+add("C19",
+    "Hypothesis-generated argument vectors run through main() in-process; "
+    "oracle = own encoder on reference-shifted fields, own duration decoder, "
+    "differential against library iteration, exit-status contract",
+    "Date-time arguments in every documented complete/reduced notation with "
+    "0-3 offsets in all documented spellings, --utc, --calendar / "
+    "ISODATETIMECALENDAR, ref / --ref / ISODATETIMEREF are compared with the "
+    "text our encoder produces from fields shifted on the reference calendar; "
+    "two-argument differences (and --as-total) are decoded independently and "
+    "compared with reference instants; recurrences with --max against "
+    "library iteration; arguments the library's parsers refuse must exit "
+    "non-zero with a message and no traceback. Exploration only.",
+    "trusts vlib/refcal.py, vlib/forms.py; results that cannot be printed in "
+    "the input's own notation are out of scope")
+
 NOT_YET = {}
 
 
